@@ -317,8 +317,106 @@ def run_oracle(ctx, case, build):
     return out
 
 
+def canon_model(d):
+    """Order-free view of id sets (a Python set on the implementation side, a list in the model)."""
+    d = copy.deepcopy(d)
+    for e in [d['spawn']] + d['ents']:
+        e['groups'] = sorted(set(e['groups']))
+        e['vis_ids'] = sorted(set(e['vis_ids']))
+        for s in e['solids']:
+            s['vis_ids'] = sorted(set(s['vis_ids']))
+    return d
+
+
+def _tree_diff(a, b, path='root'):
+    """First differing node of two KV trees."""
+    if len(a) != len(b):
+        names = lambda t: [''.join(map(chr, n[1])) for n in t]
+        return f'{path}: {len(a)} children {names(a)[:12]} vs {len(b)} children {names(b)[:12]}'
+    for i, (x, y) in enumerate(zip(a, b)):
+        nm = ''.join(map(chr, x[1]))
+        if x[0] != y[0] or x[1] != y[1]:
+            return f'{path}[{i}]: node {x[0]}:{nm!r} vs {y[0]}:{"".join(map(chr, y[1]))!r}'
+        if x[0] == 0:
+            if x[2] != y[2]:
+                return f'{path}/{nm}: value {"".join(map(chr, x[2]))[:80]!r} vs {"".join(map(chr, y[2]))[:80]!r}'
+        else:
+            d = _tree_diff(x[2], y[2], f'{path}/{nm}[{i}]')
+            if d:
+                return d
+    return None
+
+
 def correspond(ctx, drivers):
-    pass
+    from srctools.vmf import VMF
+    from srctools.keyvalues import Keyvalues
+    drv = drivers['drv_c06']
+    n = ctx.budget(60, 500)
+    t0 = time.time()
+    reqs, meta = [], []
+    for ci, (case, build) in enumerate(cases(ctx, n)):
+        optsel = OPTS if ('file' in case or ci % 5 == 0) else [OPTS[ci % 4], OPTS[(ci // 4 + 1) % 4]]
+        for minimal, multiblend in dict.fromkeys(optsel):
+            inc = (ci % 3 == 0)
+            c = dict(case, minimal=minimal, disp_multiblend=multiblend, inc_version=inc)
+            try:
+                vmf = build()
+                d0 = G.dump_map(vmf)
+                t1 = vmf.export(inc_version=inc, minimal=minimal, disp_multiblend=multiblend)
+                tree = G.kv_tree(Keyvalues.parse(t1))
+            except Exception as e:
+                # not a correspondence matter: the search oracle reports unexportable / unparseable maps
+                ctx.count('correspond: export or keyvalues parse raised')
+                continue
+            res = {}
+            for preserve in (True, False):
+                try:
+                    res[preserve] = ('ok', G.dump_map(VMF.parse(Keyvalues.parse(t1), preserve_ids=preserve)))
+                except Exception as e:
+                    res[preserve] = ('err', f'{type(e).__name__}: {str(e)[:120]}')
+            opts = {'minimal': minimal, 'multiblend': multiblend, 'inc': inc}
+            reqs += [{'op': 'export', 'opts': opts, 'map': d0},
+                     {'op': 'parse', 'preserve': True, 'tree': tree},
+                     {'op': 'parse', 'preserve': False, 'tree': tree},
+                     {'op': 'project', 'opts': opts, 'map': d0},
+                     {'op': 'roundtrip', 'opts': opts, 'map': d0}]
+            meta.append((c, tree, res))
+            ctx.case(c, nontrivial=bool(d0['ents'] or d0['spawn']['solids']), sample_every=41)
+            ctx.count('correspond: maps')
+            ctx.count('correspond: tree nodes', t1.count('\n'))
+        if time.time() - t0 > ctx.budget(40, 300):
+            ctx.notes.append('correspondence stopped by time budget')
+            break
+    replies = drv.batch(reqs)
+    it = iter(replies)
+    for c, tree, res in meta:
+        r_exp, r_pt, r_pf, r_proj, r_rt = next(it), next(it), next(it), next(it), next(it)
+        ctx.traces_vs_impl += 1
+        if 'tree' not in r_exp:
+            ctx.disagree(c, 'tree', r_exp, 'driver error in export')
+            continue
+        d = _tree_diff(tree, r_exp['tree'])
+        if d:
+            ctx.disagree(c, 'impl tree', d, 'exportTree: Keyvalues.parse(VMF.export()) vs model tree (impl vs model)')
+        for preserve, r in ((True, r_pt), (False, r_pf)):
+            kind, val = res[preserve]
+            if kind == 'err' or 'ok' not in r:
+                if not (kind == 'err' and 'err' in r):
+                    ctx.disagree(c, val if kind == 'err' else 'ok', r.get('err', r.get('error', 'ok')), f'parseTree preserve_ids={preserve}: error behaviour')
+                continue
+            df = G.diff(canon_model(val), canon_model(r['ok']))
+            if df:
+                ctx.disagree(c, 'impl map', df, f'parseTree preserve_ids={preserve}: VMF.parse vs model (impl vs model)')
+        if 'ok' in r_rt and 'map' in r_proj:
+            df = G.diff(r_proj['map'], r_rt['ok'])
+            if df:
+                ctx.disagree(c, 'project', df, 'model: parseTree true (exportTree o m) != project o m')
+            if res[True][0] == 'ok':
+                df = G.diff(canon_model(res[True][1]), canon_model(r_proj['map']))
+                if df:
+                    ctx.disagree(c, 'impl map', df, 'project o m vs VMF.parse(VMF.export(m)) (impl vs model)')
+        else:
+            ctx.disagree(c, 'ok', [r_rt.get('err'), r_proj.get('error')], 'model round trip fails')
 
 
 def search(ctx):
@@ -359,6 +457,16 @@ def replay(ctx, payload):
     for key, what in fails:
         print(key, ':', what)
     return not fails
+
+
+def replay_known(ctx, finding):
+    """Does this open finding still reproduce? (witness = a case descriptor of this module)"""
+    w = finding.get('witness')
+    if not isinstance(w, dict) or not ('gen' in w or 'file' in w):
+        return None
+    vmf = build_case(w)
+    fails, _ = check_map(ctx, vmf, w.get('minimal', False), w.get('disp_multiblend', True), w.get('inc_version', False), w)
+    return any(k == finding['key'] for k, _ in fails)
 
 
 LEVEL_TEXT = "TODO"
